@@ -76,6 +76,9 @@ func (g *gen) sliceInOut(name string, typs []types.Type) (inTyp types.Type, outT
 	if params.Len() != 1 {
 		return nil, nil, fmt.Errorf("%s, the first argument is a function, but wanted a function with one argument", name)
 	}
+	if sig.Variadic() {
+		return nil, nil, fmt.Errorf("%s, the function argument is variadic, which is not supported", name)
+	}
 	elemTyp := sliceTyp.Elem()
 	inTyp = params.At(0).Type()
 	if !types.Identical(inTyp, elemTyp) {
